@@ -381,6 +381,12 @@ def build(ex):
                                     raises={'ValueError': lambda c: (c.env['remote_timeout'].e < 0) if c.env['remote_timeout'] is not NONE else z3.BoolVal(False)},
                                     raises_only=['ValueError'],
                                     options={'__call_hooks__': dict(common.MSG_HOOKS), 'recv_closed_check': False, 'on_block': 'end'}), var))
+    # L4c: the force path of terminate (L4) relies on SIGTERM keeping its default disposition in the child: the child side of a process worker
+    # (ProcessWorker._run with do_work/run inlined, the same contract as C02.La-process) must not install a handler for it
+    from . import childrun
+    l4c = childrun.process_run_contract(ex, 'L4c', prop='C04')
+    l4c.name = 'C04.L4c the child side of a process worker leaves SIGTERM at its default disposition (what terminate(force=True) relies on); ' + l4c.name
+    lemmas.append((l4c, None))
     return lemmas
 
 
